@@ -291,6 +291,9 @@ structure TdmObj (ε : Type) where
   nSources : Nat
   /-- `_n_events`: the *stated* total number of events of the data set (≥ the events held) -/
   nEvents : Nat
+  /-- `_index_field_name`, object state set through the property setter: `none`, or the argsort of
+  that data field -/
+  sortBy : Option (List ε → List Nat) := none
 
 /-- a freshly constructed manager (`_events = None` is represented by no events) -/
 def TdmObj.fresh {ε : Type} : TdmObj ε := { events := [], srcEvtIdxs := none, nSources := 0, nEvents := 0 }
@@ -319,7 +322,8 @@ def initTrialObj {ε : Type} (reset : Bool) (self : TdmObj ε) (K : Nat) (evs : 
     Option (TdmObj ε) :=
   let nE : Nat := statedN nEv evs.length
   let s0 : TdmObj ε :=
-    { events := evs, srcEvtIdxs := if reset then none else self.srcEvtIdxs, nSources := K, nEvents := nE }
+    { events := evs, srcEvtIdxs := if reset then none else self.srcEvtIdxs, nSources := K, nEvents := nE,
+      sortBy := self.sortBy }
   let s1? : Option (TdmObj ε) :=
     match sel with
     | none => some s0
@@ -348,6 +352,15 @@ def initTrialObj {ε : Type} (reset : Bool) (self : TdmObj ε) (K : Nat) (evs : 
     | none => none
     | some s2 =>
       some { s2 with srcEvtIdxs := some (incTable s2.nSources s2.nSelected s2.srcEvtIdxs) }
+
+/-- the `index_field_name` property setter -/
+def TdmObj.setIndexField {ε : Type} (self : TdmObj ε) (f : Option (List ε → List Nat)) : TdmObj ε :=
+  { self with sortBy := f }
+
+/-- `tdm.initialize_trial(...)` as the method is called: the index field is read from the object -/
+def TdmObj.initialize {ε : Type} (self : TdmObj ε) (K : Nat) (evs : List ε) (sel : Option (Method ε))
+    (nEv : Option Nat := none) : Option (TdmObj ε) :=
+  initTrialObj true self K evs sel self.sortBy nEv
 
 /-- one call of a history -/
 structure TdmCall (ε : Type) where
